@@ -168,6 +168,8 @@ class InvalidChars(Family):
                 raise Viol('%s(%r) raised %s' % (name, s, type(e).__name__), 'InvalidBase58Error' if bad else 'value or Base58Error', '%s: %s' % (type(e).__name__, e))
             if bad:
                 raise Viol('%s(%r) accepted a character outside the alphabet' % (name, s), 'InvalidBase58Error', repr(r)[:80])
+        if bad:
+            after_refusal(B, 'the refused string %r' % s)
         return ('invalid' if bad else 'clean'), bad
 
 
@@ -252,7 +254,39 @@ def classify(B, s):
     return ('ok', d.nVersion, bytes(d))
 
 
+_KNOWN = {}
+
+
+def after_refusal(B, what):
+    """a refused string leaves nothing behind: a fixed valid Base58Check string and a fixed plain string decode right after it"""
+    if not _KNOWN:
+        payload = C.fill(20, 3)
+        _KNOWN['check'] = (R.check_encode(5, payload), payload)
+        raw = b'\x00\x00' + C.fill(48, 9)
+        _KNOWN['raw'] = (R.encode(raw), raw)
+    s, payload = _KNOWN['check']
+    got = classify(B, s)
+    if got != ('ok', 5, payload):
+        raise Viol('a valid Base58Check string parsed right after %s is not parsed correctly' % what, ('ok', 5, payload), got)
+    s, raw = _KNOWN['raw']
+    try:
+        d = bytes(B.decode(s))
+    except Exception as e:  # noqa
+        d = '%s: %s' % (type(e).__name__, e)
+    if d != raw:
+        raise Viol('a valid string decoded right after %s is not decoded correctly' % what, raw, d)
+    if B.encode(raw) != s:
+        raise Viol('encode() right after %s' % what, s, B.encode(raw))
+
+
 def judge(B, s, what):
+    r = _judge(B, s, what)
+    if r != 'ok':
+        after_refusal(B, 'the refused string %r (%s)' % (s, what))
+    return r
+
+
+def _judge(B, s, what):
     want = R.check_decode(s)
     got = classify(B, s)
     if want[0] == 'short':
@@ -302,6 +336,13 @@ class CheckRoundTrip(Family):
         back = B.CBase58Data(s)
         if back.nVersion != v or bytes(back) != payload or back.to_bytes() != payload:
             raise Viol('CBase58Data(str(x)) does not return the same version and payload', (v, payload), (back.nVersion, bytes(back)))
+        # a parsed and printed object as the payload of another version, printed twice
+        if str(back) != want:
+            raise Viol('str() of the parsed object', want, str(back))
+        rev2 = B.CBase58Data.from_bytes(back, (v + 13) % 256)
+        for rep in (0, 1):
+            if str(rev2) != R.check_encode((v + 13) % 256, payload) or str(back) != want:
+                raise Viol('from_bytes(<parsed and printed CBase58Data of version %d>, %d) prints another text' % (v, (v + 13) % 256), R.check_encode((v + 13) % 256, payload), str(rev2))
         return 'ok', True
 
 
